@@ -225,7 +225,9 @@ C08_THEOREMS = ['BinlogVerif.C08.c08_scan_blocks', 'BinlogVerif.C08.c08_scan_blo
                 'BinlogVerif.C08.c08_complete_and_printable_states',
                 'BinlogVerif.C08.c08_scan_blocks_inert', 'BinlogVerif.C08.c08_recovered_sorted_inert', 'BinlogVerif.C08.c08_recovered_content_inert',
                 'BinlogVerif.C08.c08_no_uncommitted_inert', 'BinlogVerif.C08.c08_complete_and_printable_inert',
-                'BinlogVerif.C08.c08_recovered_output_junk', 'BinlogVerif.C08.c08_no_uncommitted_junk']
+                'BinlogVerif.C08.c08_recovered_output_junk', 'BinlogVerif.C08.c08_no_uncommitted_junk',
+                'BinlogVerif.C08.c08_sessions_sorted', 'BinlogVerif.C08.c08_two_sessions', 'BinlogVerif.Image.expectedItems_after',
+                'BinlogVerif.Image.mergeSort_partition']
 
 
 def build_crash_harness():
@@ -252,7 +254,16 @@ def crash_script(rng):
     if rng.random() < 0.6:
         for _ in range(rng.choice([1, 2, 3])):
             keep.append('pre %d %d' % (rng.choice([24, 30, 48, 64, 100, 128, 1024]), rng.choice([1, 2, 3])))
-    for o in ops:
+    # other live sessions of the process (ids of their event sources start at 1 again), created before, between or after the
+    # operations of the main one
+    others = {}
+    if rng.random() < 0.5:
+        for j in range(rng.choice([1, 1, 2])):
+            others.setdefault(rng.randrange(len(ops) + 1), []).append('other %d %d %d' % (8000 + j, rng.choice([64, 128, 1024]), rng.choice([1, 2, 3])))
+    for i, o in enumerate(ops + [None]):
+        keep.extend(others.get(i, []))
+        if o is None:
+            break
         t = o.split(' ')
         if t[0] in ('cw', 'src', 'log', 'dw', 'cs', 'consume', 'sname'):
             keep.append(o)
@@ -347,22 +358,32 @@ def image_hypotheses(blocks, point):
     live_sessions = set(b['session'] for b in live) or set(b['session'] for b in blocks if b['kind'] == 'data')
     if not live_sessions:
         return None          # nothing but empty buffers: the recovered log is empty
+    # the session that is inside an operation may have nothing but empty buffers yet (a session under construction)
+    allmeta = {}
+    for b in blocks:
+        if b['kind'] == 'meta':
+            allmeta[b['session']] = allmeta.get(b['session'], 0) + 1
+    growing_any = sum(1 for k, n in allmeta.items() if n == 3)
     blocks = [b for b in blocks if b['session'] in live_sessions]
     for b in blocks:
         sessions.setdefault(b['session'], []).append(b)
+    # several live sessions (c08_sessions_*): every one of them is an image of the one-session model; at most one of them is
+    # inside an operation at the crash point
     meta_sessions = [k for k, v in sessions.items() if any(b['kind'] == 'meta' for b in v)]
-    if len(meta_sessions) != 1:
-        return 'accepted metadata blocks of %d sessions in the image (the model has one live session)' % len(meta_sessions)
-    if len(sessions) != 1:
+    if len(meta_sessions) != len(sessions):
         return 'the tool accepts a block of a session that has no metadata in the image (stale queue?): sessions %s' % sorted(sessions)
-    n = sum(1 for b in blocks if b['kind'] == 'meta')
-    want = 3 if point == 'meta-magic-set' else 2
-    if n != want:
-        return '%d metadata blocks carry the magic number at crash point %s, the image model (MetaState) says %d' % (n, point, want)
-    if want == 3:
-        contents = sorted(b['content'] for b in blocks if b['kind'] == 'meta')
-        if contents[0] != contents[1] and contents[1] != contents[2]:
-            return 'while growing with both magic numbers set the old and the new block differ (MetaState.growingBoth fails)'
+    growing = 0
+    for k, v in sorted(sessions.items()):
+        n = sum(1 for b in v if b['kind'] == 'meta')
+        if n == 3 and point == 'meta-magic-set':
+            growing += 1
+            contents = sorted(b['content'] for b in v if b['kind'] == 'meta')
+            if contents[0] != contents[1] and contents[1] != contents[2]:
+                return 'while growing with both magic numbers set the old and the new block differ (MetaState.growingBoth fails)'
+        elif n != 2:
+            return '%d metadata blocks of one session carry the magic number at crash point %s, the image model (MetaState) says %d' % (n, point, 2)
+    if max(growing, growing_any) != (1 if point == 'meta-magic-set' else 0):
+        return '%d sessions have three metadata blocks with the magic number at crash point %s' % (max(growing, growing_any), point)
     return None
 
 
@@ -389,16 +410,20 @@ def analyse_crash(res, attempted):
         if c not in have:
             return 'event (writer %d, seq %d) whose log call had completed is neither in the output so far nor in the recovered log' % c
     # printable: source and clock sync precede each event within the recovered log
-    defined, seen_cs = set(), False
+    defined, seen_cs = {}, False
     for p in rec:
         tg = CS.tag_of(p)
         if tg == CS.TAG_CS:
             seen_cs = True
         elif tg == CS.TAG_SOURCE:
-            defined.add(int.from_bytes(p[8:16], 'little'))
+            defined[int.from_bytes(p[8:16], 'little')] = p
         elif tg is not None and tg < (1 << 63):
             if tg not in defined:
                 return 'recovered event of source id %d is not printable: its event source is not in the recovered log' % tg
+            # ... and it is ITS session's source: the event sources of the other live sessions say `other {}`
+            if len(p) >= 24 and (8000 <= struct.unpack('<I', p[16:20])[0] < 9000) != (b'other {}' in defined[tg]):
+                return ('recovered event (writer %d, seq %d) would be printed with the event source that another session of the process '
+                        'registered under the same id %d' % (struct.unpack('<II', p[16:24]) + (tg,)))
             if not seen_cs:
                 return 'recovered event is not printable: no clock sync in the recovered log'
     # nothing uncommitted / torn
@@ -435,6 +460,8 @@ def check_c08(ctx):
             t = o.split(' ')
             if t[0] == 'log':
                 attempted.add(struct.unpack('<II', bytes.fromhex(t[4])[:8]))
+            if t[0] == 'other':
+                attempted.update((int(t[1]), k_) for k_ in range(int(t[3])))
         # hit counts of every point for this script
         p = subprocess.run([exe], input=('crash none 0 | ' + ' | '.join(ops) + '\n').encode(), stdout=subprocess.PIPE, stderr=subprocess.PIPE,
                            env=dict(os.environ, VERIF_DUMP=os.path.join(workdir, 'unused')), timeout=120)
@@ -510,7 +537,8 @@ def check_c08(ctx):
     finish_proof(ctx, ok, bool(prop_fail))
     total = sum(s['images'] for s in by_point.values())
     ctx.coverage.update({'evaluations': total, 'distinct_nontrivial': len(nontrivial), 'traces_validated_against_impl': total - len(prop_fail),
-                         'rule': 'session scripts (several writers, small queues forcing wrap and replacement, frequent source registration '
+                         'rule': 'session scripts (several writers, small queues forcing wrap and replacement, other LIVE sessions of the same process '
+                                 'whose event source ids overlap with the main one, earlier dead sessions, frequent source registration '
                                  'so that the metadata vectors reallocate, consumes, destroys) run on the real library; at every hook point between '
                                  'two memory writes (queue bytes/commit/wrap/release, metadata magic-clear/insert/magic-set/size-update, channel '
                                  'construction/destruction steps, consume writes, operation boundaries; all hits or a sample per point) the process '
